@@ -16,6 +16,7 @@ import (
 	"github.com/pkg/errors"
 
 	"github.com/liftbridge-io/liftbridge/server/logger"
+	"github.com/liftbridge-io/liftbridge/server/verifhook"
 )
 
 // ErrSegmentNotFound is returned if the segment could not be found.
@@ -256,6 +257,11 @@ func (l *commitLog) AppendMessageSet(ms []byte) ([]int64, error) {
 func (l *commitLog) append(segment *segment, ms []byte, entries []*entry) ([]int64, error) {
 	if err := segment.WriteMessageSet(ms, entries); err != nil {
 		return nil, err
+	}
+	if verifhook.Enabled {
+		if err := verifhook.Point("append.afterWrite"); err != nil {
+			return nil, err
+		}
 	}
 	var (
 		lastLeaderEpoch = l.leaderEpochCache.LastLeaderEpoch()
@@ -561,6 +567,11 @@ func (l *commitLog) Truncate(offset int64) error {
 			return err
 		}
 		deleted++
+		if verifhook.Enabled {
+			if err := verifhook.Point("truncate.afterDeleteSeg"); err != nil {
+				return err
+			}
+		}
 	}
 
 	var replace bool
@@ -575,6 +586,11 @@ func (l *commitLog) Truncate(offset int64) error {
 				return err
 			}
 			deleted++
+			if verifhook.Enabled {
+				if err := verifhook.Point("truncate.afterDeleteSeg"); err != nil {
+					return err
+				}
+			}
 		}
 	} else {
 		replace = true
@@ -604,6 +620,11 @@ func (l *commitLog) Truncate(offset int64) error {
 				break
 			}
 		}
+		if verifhook.Enabled {
+			if err := verifhook.Point("truncate.beforeReplace"); err != nil {
+				return err
+			}
+		}
 		if err = newSegment.Replace(seg); err != nil {
 			return err
 		}
@@ -613,6 +634,11 @@ func (l *commitLog) Truncate(offset int64) error {
 	atomic.StorePointer((*unsafe.Pointer)(unsafe.Pointer(&l.vActiveSegment)),
 		unsafe.Pointer(activeSegment))
 	l.segments = segments
+	if verifhook.Enabled {
+		if err := verifhook.Point("truncate.beforeClearLatest"); err != nil {
+			return err
+		}
+	}
 	return l.leaderEpochCache.ClearLatest(offset)
 }
 
@@ -684,6 +710,11 @@ func (l *commitLog) checkAndPerformSplit() (bool, error) {
 			}
 			return false, err
 		}
+		if verifhook.Enabled {
+			if err := verifhook.Point("split.beforeSeal"); err != nil {
+				return false, err
+			}
+		}
 		activeSegment.Seal()
 		return true, nil
 	}
@@ -696,6 +727,11 @@ func (l *commitLog) split(oldActiveSegment *segment) error {
 	if err != nil {
 		return err
 	}
+	if verifhook.Enabled {
+		if err := verifhook.Point("split.afterCreate"); err != nil {
+			return err
+		}
+	}
 	// Do a CAS on the active segment to ensure no other threads have replaced
 	// it already. If this fails, it means another thread has already replaced
 	// it, so delete the new segment and return ErrSegmentExists.
@@ -704,6 +740,11 @@ func (l *commitLog) split(oldActiveSegment *segment) error {
 		unsafe.Pointer(oldActiveSegment), unsafe.Pointer(segment)) {
 		segment.Delete() // nolint: errcheck
 		return ErrSegmentExists
+	}
+	if verifhook.Enabled {
+		if err := verifhook.Point("split.afterCAS"); err != nil {
+			return err
+		}
 	}
 	l.mu.Lock()
 	segments := append(l.segments, segment)
@@ -749,6 +790,11 @@ func (l *commitLog) Clean() error {
 	cleaned, epochCache, err := l.clean(oldSegments)
 	if err != nil {
 		return err
+	}
+	if verifhook.Enabled {
+		if err := verifhook.Point("clean.afterCleanSegments"); err != nil {
+			return err
+		}
 	}
 	l.mu.Lock()
 	newSegments := l.segments
@@ -830,5 +876,14 @@ func (l *commitLog) checkpointHW() error {
 		r    = strings.NewReader(strconv.FormatInt(hw, 10))
 		file = filepath.Join(l.Path, hwFileName)
 	)
+	if verifhook.Enabled {
+		if err := verifhook.Point("hw.beforeCheckpoint"); err != nil {
+			return err
+		}
+		if err := atomic_file.WriteFile(file, r); err != nil {
+			return err
+		}
+		return verifhook.Point("hw.afterCheckpoint")
+	}
 	return atomic_file.WriteFile(file, r)
 }
